@@ -11,6 +11,7 @@ CONSTANTS N = 3
  VCBatchPolicy = "either"
  AggBatchFor = "none"
  MemoVerifier = FALSE
+ DomainCache = FALSE
  ReplayPolicy = "either"
 INVARIANTS TypeOK OnlyValidEnter ValidEnters PeerAllOrNothing
 CHECK_DEADLOCK FALSE
